@@ -37,6 +37,40 @@ impl Val for Wide {
     }
 }
 
+#[derive(Clone, Copy, PartialEq, PartialOrd, Debug)]
+pub struct Wide40(pub [u64; 5]);
+impl Val for Wide40 {
+    fn make(i: u8) -> Wide40 {
+        Wide40([i as u64, !(i as u64), 0x1111 * i as u64, 7, i as u64])
+    }
+    fn code(&self) -> u8 {
+        self.0[0] as u8
+    }
+}
+/// A float payload: value 2 is a NaN (never equal to itself under PartialEq), told apart by bits.
+#[derive(Clone, Copy, PartialEq, PartialOrd, Debug)]
+pub struct Fl(pub f64);
+impl Val for Fl {
+    fn make(i: u8) -> Fl {
+        match i {
+            0 => Fl(0.0),
+            1 => Fl(1.5),
+            _ => Fl(f64::NAN),
+        }
+    }
+    fn code(&self) -> u8 {
+        if self.0.is_nan() {
+            2
+        } else if self.0 == 1.5 {
+            1
+        } else if self.0 == 0.0 {
+            0
+        } else {
+            254
+        }
+    }
+}
+
 #[derive(Clone, Copy, PartialEq, Eq, Debug)]
 pub enum Pred {
     Always,
@@ -73,8 +107,11 @@ pub fn hash_alphabet(size: usize) -> Vec<u64> {
     keep
 }
 pub fn ops_for(size: usize) -> Vec<Op> {
+    ops_from(&hash_alphabet(size))
+}
+pub fn ops_from(alphabet: &[u64]) -> Vec<Op> {
     let mut out = vec![];
-    for &h in hash_alphabet(size).iter() {
+    for &h in alphabet.iter() {
         for v in [1u8, 2] {
             out.push(Op::Add(h, v));
             for p in [Pred::Always, Pred::Never, Pred::OldIsDefault, Pred::OldLessThanNew] {
@@ -167,11 +204,12 @@ fn run_case<T: Val>(size: usize, seq: &[Op], alphabet: &[u64], slots: &[usize]) 
                     return Err(format!("replace_if handed {:?} to the predicate, the slot's current value is {}", seen, old));
                 }
                 preds += 1;
+                let (told, tnew) = (T::make(old), T::make(v));
                 let yes = match p {
                     Pred::Always => true,
                     Pred::Never => false,
-                    Pred::OldIsDefault => old == 0,
-                    Pred::OldLessThanNew => old < v,
+                    Pred::OldIsDefault => told == dflt,
+                    Pred::OldLessThanNew => told < tnew,
                 };
                 if yes {
                     model[slot] = (h, v);
@@ -183,13 +221,7 @@ fn run_case<T: Val>(size: usize, seq: &[Op], alphabet: &[u64], slots: &[usize]) 
     for &h in alphabet {
         let slot = slot_of(h);
         let want = if model[slot].0 == h { Some(model[slot].1) } else { None };
-        let got = table.get(h).map(|t: T| {
-            if t != T::make(t.code()) {
-                255
-            } else {
-                t.code()
-            }
-        });
+        let got = table.get(h).map(|t: T| t.code());
         looks += 1;
         if got != want {
             return Err(format!("get({h:#x}) = {:?}, the model says {:?} (slot {} holds hash {:#x})", got, want, slot, model[slot].0));
@@ -203,8 +235,17 @@ fn crumb(b: &[u8]) -> String {
 }
 
 fn explore<T: Val>(run: &Run, tyname: &'static str, size: usize, depth: usize, states: &Mutex<BTreeSet<Vec<(u64, u8)>>>) {
-    let ops = ops_for(size);
-    let alphabet = hash_alphabet(size);
+    explore_with::<T>(run, tyname, size, depth, states, hash_alphabet(size))
+}
+pub fn large_alphabet(size: usize) -> Vec<u64> {
+    let s = size as u64;
+    let mut v = vec![0, 1, s - 1, s, s + 1, 2 * s, s << 20, 1u64 << 41, (1u64 << 41) + 1, (1u64 << 63) | 1, u64::MAX, (1u64 << 41) + s];
+    v.sort();
+    v.dedup();
+    v
+}
+fn explore_with<T: Val>(run: &Run, tyname: &'static str, size: usize, depth: usize, states: &Mutex<BTreeSet<Vec<(u64, u8)>>>, alphabet: Vec<u64>) {
+    let ops = ops_from(&alphabet);
     let a2 = alphabet.clone();
     let slots = match guard::lib(move || infer_slots::<T>(size, &a2)) {
         Ok(Ok(s)) => s,
@@ -337,7 +378,7 @@ fn constructions(run: &Run) {
     }
 }
 
-pub const RULE: &str = "E2 over operation sequences: for each table size in {1, 2, 4, 8} (thorough: also 16) and each value type (u8 and a 16-byte struct), EVERY sequence of up to D operations (D = 4 quick, 5 thorough) over the alphabet {add, replace_if with always / never / old==default / old<new} x 6 hashes (0, 1, size-1, size, size+1, 2^32+1, 2^63, u64::MAX, 2*size+1 reduced to 6: slot-colliding and non-colliding, high-bit) x values {1, 2}; every sequence is replayed on a fresh real table and on a slot-array model (which hashes share a slot is observed on fresh tables, not assumed: the relation must be an equivalence with at most `size` classes); after it get(h) for every alphabet hash and the value handed to every predicate must agree. Construction: every size in 0..=1025 and 2^k, 2^k +- 1 for k <= 20 panics iff it is not a power of two, and a fresh table answers as (hash 0, default). Out-of-table access aborts loudly in this debug-assertion build. states = sequences (histories), transitions = operations replayed. distinct_nontrivial = distinct model states reached";
+pub const RULE: &str = "E2 over operation sequences: for each table size in {1, 2, 4, 8} (thorough: also 16) and each value type (u8 and a 16-byte struct), EVERY sequence of up to D operations (D = 4 quick, 5 thorough) over the alphabet {add, replace_if with always / never / old==default / old<new} x 6 hashes (0, 1, size-1, size, size+1, 2^32+1, 2^63, u64::MAX, 2*size+1 reduced to 6: slot-colliding and non-colliding, high-bit) x values {1, 2}; every sequence is replayed on a fresh real table and on a slot-array model (which hashes share a slot is observed on fresh tables, not assumed: the relation must be an equivalence with at most `size` classes); after it get(h) for every alphabet hash and the value handed to every predicate must agree. Larger tables (32, 64, 1024, 65536 to depth 2; 2^20 to depth 1) with a 12-hash alphabet (0, 1, size-1, size, size+1, 2*size, size*2^20, 2^41, 2^41+1, 2^41+size, 2^63+1, u64::MAX) and two further value types (40-byte struct, float payload whose value 2 is a NaN) are explored the same way. Construction: every size in 0..=1025 and 2^k, 2^k +- 1 for k <= 20 panics iff it is not a power of two, and a fresh table answers as (hash 0, default). Out-of-table access aborts loudly in this debug-assertion build. states = sequences (histories), transitions = operations replayed. distinct_nontrivial = distinct model states reached";
 
 pub fn run(tier: Tier) -> i32 {
     let run = Arc::new(Run::new("C19", tier, COUNTERS));
@@ -349,6 +390,17 @@ pub fn run(tier: Tier) -> i32 {
         explore::<u8>(&run, "u8", size, depth, &states);
         explore::<Wide>(&run, "Wide", size, depth, &states);
         run.add("sizes", 1);
+    }
+    // larger tables, hashes that differ only above bit 40 or are multiples of the size, further
+    // value types (40-byte struct, float payload with a NaN value)
+    for &size in [32usize, 64, 1024, 65536].iter() {
+        explore_with::<u8>(&run, "u8", size, 2, &states, large_alphabet(size));
+        run.add("sizes", 1);
+    }
+    explore_with::<u8>(&run, "u8", 1 << 20, 1, &states, large_alphabet(1 << 20));
+    for &size in [1usize, 4, 64].iter() {
+        explore_with::<Wide40>(&run, "Wide40", size, tier.pick(2, 3), &states, large_alphabet(size));
+        explore_with::<Fl>(&run, "Fl", size, tier.pick(2, 3), &states, large_alphabet(size));
     }
     let d = states.lock().unwrap().len() as u64;
     run.add("distinct_model_states", d);
@@ -365,8 +417,20 @@ pub fn replay(case: &Value) -> i32 {
         Some("cache") => {
             let size = case["size"].as_u64().unwrap_or(1) as usize;
             let ops: Vec<Op> = case["ops"].as_array().cloned().unwrap_or_default().iter().filter_map(op_parse).collect();
-            let alphabet = hash_alphabet(size);
-            let r = if case["type"] == json!("u8") {
+            let mut alphabet = hash_alphabet(size);
+            for o in ops.iter() {
+                let h = match o {
+                    Op::Add(h, _) | Op::ReplaceIf(h, _, _) => *h,
+                };
+                if !alphabet.contains(&h) {
+                    alphabet = large_alphabet(size);
+                }
+            }
+            let r = if case["type"] == json!("Wide40") {
+                guard::lib(|| infer_slots::<Wide40>(size, &alphabet).and_then(|sl| run_case::<Wide40>(size, &ops, &alphabet, &sl)))
+            } else if case["type"] == json!("Fl") {
+                guard::lib(|| infer_slots::<Fl>(size, &alphabet).and_then(|sl| run_case::<Fl>(size, &ops, &alphabet, &sl)))
+            } else if case["type"] == json!("u8") {
                 guard::lib(|| infer_slots::<u8>(size, &alphabet).and_then(|sl| run_case::<u8>(size, &ops, &alphabet, &sl)))
             } else {
                 guard::lib(|| infer_slots::<Wide>(size, &alphabet).and_then(|sl| run_case::<Wide>(size, &ops, &alphabet, &sl)))
